@@ -120,7 +120,7 @@ def run(ctx):
     rep.cov["input_distribution"] = stats
     rep.cov["samples"] = [{"file": v["File"], "line": v["Line"], "annotation": v["Text"].strip(), "go_says": v["Expect"], "missing": v.get("Missing")} for v in oracle[:4]]
     rep.assumptions = ["fragment: non-generic types and interfaces; no unexported interface methods across packages; no @implements on an alias declaration (DESIGN 5.1)",
-                       "the method sets (types.NewMethodSet) and interface completion are inputs of the model; types.Identical is a library model (canonical forms) exercised on every pair"]
+                       "the method sets (types.NewMethodSet) and interface completion are inputs of the model; types.Identical is a library model (equality of normal forms) exercised on every pair"]
     return rep.finish()
 
 
